@@ -2228,10 +2228,14 @@ def _config_str(
 
   import_manager = ImportManager(_IMPORTS)
   if import_manager.dynamic_registration:
-    for _, selector in configuration_object:
-      import_manager.require_configurable(_REGISTRY[selector])
+    # Imports (and their aliases) are generated in a fixed order, so that they
+    # don't depend on the order the bindings were made in.
+    required = {selector: _REGISTRY[selector]
+                for _, selector in configuration_object}
     for reference in iterate_references(configuration_object):
-      import_manager.require_configurable(reference.configurable)
+      required[reference.configurable.selector] = reference.configurable
+    for selector in sorted(required):
+      import_manager.require_configurable(required[selector])
 
   # Build the output as an array of formatted Gin statements. Each statement may
   # span multiple lines. Imports are first, followed by macros, and finally all
